@@ -204,7 +204,7 @@ def c12(ctx, spec):
 # ---------------------------------------------------------------------------------------------- C11
 def c11(ctx, spec):
     names = {0: 'raw', 1: 'min', 2: 'checked'}
-    ctx.build([dict(name='c11_%s' % names[p], src='harness/c11_fancy.cpp', cfg='asan', defs=['C11_P=%d' % p], may_fail=(p != 0)) for p in (0, 1, 2)])
+    ctx.build([dict(name='c11_%s' % names[p], src='harness/c11_fancy.cpp', cfg='asan', defs=['C11_P=%d' % p], may_fail=(p != 0)) for p in (0, 1, 2)] + [dict(name='c11_proxy', src='harness/c11_proxy.cpp', cfg='asan', defs=[], may_fail=True)])
     if not ctx.built['c11_raw']['ok']: ctx.inconclusive.append('harness build failed: c11_raw'); return
     for p in (1, 2):
         b = ctx.built['c11_%s' % names[p]]
@@ -213,6 +213,10 @@ def c11(ctx, spec):
     n = T(ctx, 6000, 250000)
     for p in (0, 1, 2):
         if ctx.built['c11_%s' % names[p]]['ok']: ctx.run_sharded('c11_%s' % names[p], n, args=['--maxext', 4, '--maxops', 5], shards=5)
+    # the same view programs over an array_ref whose pointer has a PROXY reference and an encoded backing store (every bypass of the pointer's own dereference reads a wrong value)
+    if not ctx.built['c11_proxy']['ok']:
+        ctx.add_violation('C11:differential-compile:proxy-reference-pointer', 'views, element access, assignment, swap, reverse, rotate and sort over an array_ref whose pointer dereferences to a proxy object no longer compile: ' + ' | '.join(l for l in ctx.built['c11_proxy']['log'].splitlines() if 'error' in l)[:500], desc='compile of harness/c11_proxy.cpp')
+    else: ctx.run_sharded('c11_proxy', T(ctx, 6000, 200000), args=['--maxext', 4, '--maxops', 4], shards=4)
     ref = ctx.digests.get('c11_raw', {}); compared = 0
     for p in (1, 2):
         dd = ctx.digests.get('c11_%s' % names[p], {})
